@@ -72,7 +72,7 @@ def runLine (line : String) : Driver.Result :=
   | ["twice", _, zone, ti, to, line, ext, first, second] => Driver.TypedCase.runTwice zone ti to line ext first second ""
   | ["twice", _, zone, ti, to, line, ext, first, second, hint] => Driver.TypedCase.runTwice zone ti to line ext first second hint
   | ["timert", _, zone, src, ext, s1, s2, s3, s4] => Driver.TimeCase.runCase zone src ext s1 s2 s3 s4
-  | ["alias", _, tmpl, ops, ext, obs] => Driver.AliasCase.runCase tmpl ops ext obs
+  | ["alias", prop, tmpl, ops, ext, obs] => Driver.AliasCase.runCase tmpl ops ext obs prop
   | ["conc", _, tmpl, cfg, impl] =>
     if impl == "same" then ⟨"S", ""⟩
     else ⟨"P", s!"conc {cfg} template [{tmpl}]: {impl} violates C20: key=results-differ-from-sequential"⟩
